@@ -15,7 +15,8 @@ PROPERTY = "C05"
 LEVEL = "exploration"
 RULE = ("a case = a drawn parent-closed set of 2..12 addresses (depth <= 4), each node RF24Network or routing-only with a drawn "
         "MCU timing model (SPI cost 8..400 us, jitter, poll period), optionally a multicast_level override and an earlier address it was "
-        "moved from with the node_address setter, fragmentation on/off, and 1..4 sequential messages "
+        "moved from with the node_address setter, allow_multicast on/off, fragmentation on/off, queues read after every "
+        "message or only at the end (then with frame ids colliding between origins), and 1..4 sequential messages "
         "(source, destination among full nodes; length 0..144, 0..24 with fragmentation off, biased to 0/24/25/48/49/144; user "
         "type 0..127; drawn bytes; fresh or explicit frame ids; write() or send()).  non-trivial = a message with >= 2 hops, or "
         "> 24 bytes, or an acknowledged type over >= 2 hops; distinct = SHA-1 of the case JSON")
@@ -98,6 +99,9 @@ def run_case(case):
     def main():
         for n in case["nodes"]:
             c = net.add(n["addr"], n["kind"], n["addr"] if n.get("was") is None else n["was"], mcu=n.get("mcu"))
+            if n.get("mc_off"):
+                c.node.allow_multicast = False  # takes effect with the next address assignment (documented)
+                c.node.node_address = n["addr"]
             if n.get("was") is not None:
                 c.node.node_address = n["addr"]  # the node held another address before (public setter)
             if not frag_on:
@@ -121,10 +125,19 @@ def run_case(case):
 
             box = net.call(m["src"], do, timeout_ms=30000)
             settled = net.settle(4000)
-            queues = net.drain_queues()
+            queues = net.drain_queues() if not case.get("hold") else {}
             out.append({"box": box, "settled": settled, "queues": queues, "air": net.med.log[n0:], "m": m})
             if not box["done"]:
                 break
+        if case.get("hold"):
+            # the applications did not read their queues between the messages: everything is taken out at the end and each
+            # message is judged on the frames that carry its origin, type and bytes (frames matching no message count
+            # against the first one)
+            final = net.drain_queues()
+            keys = [(o["m"]["src"], o["m"]["type"], bytes.fromhex(o["m"]["msg"])) for o in out]
+            for i, o in enumerate(out):
+                o["queues"] = {node: [f for f in fr if (f[0], f[3], f[5]) == keys[i] or (i == 0 and (f[0], f[3], f[5]) not in keys)]
+                               for node, fr in final.items()}
 
     try:
         net.sim.run_main(main)
@@ -206,6 +219,10 @@ def run_case(case):
         if ret is not True and good:
             res.fail("C05/" + crossing + "write-false-but-delivered/" + cls, "%o -> %o delivered, write() returned %r" % (m["src"], m["dst"], ret))
     res.label("frag-on" if frag_on else "frag-off", "nodes%d" % len(case["nodes"]))
+    if case.get("hold"):
+        res.label("queues-read-at-the-end")
+    if any(n.get("mc_off") for n in case["nodes"]):
+        res.label("some-nodes-multicast-off")
     return res
 
 
@@ -239,6 +256,10 @@ def _strategy():
             for n in nodes:
                 if draw(st.booleans()):
                     n["mc_level"] = draw(st.integers(0, 4))
+        if draw(st.integers(0, 3)) == 0:
+            for n in nodes:
+                if draw(st.booleans()):
+                    n["mc_off"] = True
         if draw(st.integers(0, 2)) == 0:
             for n in nodes:
                 if draw(st.booleans()):
@@ -253,12 +274,46 @@ def _strategy():
             msgs.append({"src": s, "dst": d, "type": draw(st.one_of(st.integers(0, 127), st.sampled_from([0, 64, 65, 127]))),
                          "msg": draw(st.binary(min_size=n, max_size=n)).hex(),
                          "id": draw(st.one_of(st.none(), st.integers(0, 0xFFFF))), "via": draw(st.sampled_from(["write", "send"]))})
-        return {"nodes": nodes, "frag": frag, "msgs": msgs}
+        c = {"nodes": nodes, "frag": frag, "msgs": msgs}
+        if len(msgs) >= 2 and draw(st.integers(0, 2)) == 0:
+            # unread queues: ids as devices that all count from the same start would produce them (collisions between
+            # origins), every (origin, id, type) and every (origin, destination, type, bytes) used once
+            c["hold"] = True
+            seen, seen2 = set(), set()
+            for m in msgs:
+                m["id"] = draw(st.sampled_from([7, 8]))
+                m["type"] = draw(st.sampled_from([1, 65, 0]))
+                while (m["src"], m["id"], m["type"]) in seen or (m["src"], m["type"], m["msg"]) in seen2:
+                    m["id"] += 2
+                    m["type"] = (m["type"] + 1) % 128
+                seen.add((m["src"], m["id"], m["type"]))
+                seen2.add((m["src"], m["type"], m["msg"]))
+        return c
 
     return case()
 
 
+def _enum_unread():
+    """fixed small trees; 2..3 messages with the SAME frame id and type from different origins to one destination (direct
+    and routed, single-frame and fragmented), the destination's application reading only at the end; and routers with
+    allow_multicast off as the last hop of acknowledged types"""
+    star = [0, 0o1, 0o2, 0o3, 0o11, 0o21]
+    for frag_len in (5, 40):
+        for typ in (1, 65):
+            for dst, srcs in ((0, (0o1, 0o2, 0o3)), (0o1, (0, 0o11, 0o2)), (0o11, (0o21, 0, 0o1)), (0o2, (0o21, 0o1))):
+                nodes = [{"addr": a, "kind": "net", "mcu": None} for a in star]
+                msgs = [{"src": sx, "dst": dst, "type": typ, "msg": bytes([0x30 + i] * frag_len).hex(), "id": 7, "via": "write"} for i, sx in enumerate(srcs)]
+                yield {"nodes": nodes, "frag": True, "msgs": msgs, "hold": True}
+    for off in ([0o1], [0o2], [0o1, 0o2], [0, 0o1, 0o2]):
+        for typ in (65, 127, 1):
+            nodes = [{"addr": a, "kind": "router" if a in off and a not in (0o11, 0o21) and a != 0 and a != 0o2 else "net", "mcu": None, "mc_off": a in off} for a in star]
+            msgs = [{"src": 0, "dst": 0o11, "type": typ, "msg": "aa55", "id": None, "via": "write"},
+                    {"src": 0o11, "dst": 0o21, "type": typ, "msg": "bb66", "id": None, "via": "send"},
+                    {"src": 0o21, "dst": 0, "type": typ, "msg": "cc77", "id": None, "via": "write"}]
+            yield {"nodes": nodes, "frag": True, "msgs": msgs}
+
+
 def parts(tier):
     if tier == "quick":
-        return [Part("generated", "gen", _strategy, n=480)]
-    return [Part("generated", "gen", _strategy, n=20000)]
+        return [Part("enum-unread-queues-and-multicast-off-routers", "enum", _enum_unread, exhaustive=True), Part("generated", "gen", _strategy, n=480)]
+    return [Part("enum-unread-queues-and-multicast-off-routers", "enum", _enum_unread, exhaustive=True), Part("generated", "gen", _strategy, n=20000)]
